@@ -25,7 +25,7 @@ type Result struct {
 	Nontrivial bool           `json:"nontrivial,omitempty"`
 	Counters   map[string]int `json:"counters,omitempty"` // vacuity guards
 	Key        string         `json:"key,omitempty"`      // implementation-state key (BFS only)
-	Enabled    []string       `json:"enabled,omitempty"`  // BFS: operations enabled in the reached state (nil = all)
+	Enabled    []string       `json:"enabled"`            // BFS: operations enabled in the reached state (nil = all, empty = none)
 }
 
 // Fail appends a failure.
